@@ -12,6 +12,10 @@ DATA_NAMES = ["Book", "Shelf", "Author", "Tag", "Note", "Outer", "Config", "Blob
 NESTED_NAMES = ["Inner", "Detail", "Part", "Info"]
 ENUM_NAMES = ["Color", "Kind", "State", "Mode"]
 SVC_NAMES = ["Library", "Archive", "Catalog"]
+# service names that already carry the mark the internal mode adds to client classes (`Base`), alone, doubled, and
+# next to the service whose prefixed name they equal (Foo + BaseFoo: Base+Foo == BaseFoo)
+MARKED_SVC_POOLS = [["Baseline", "Library", "BaseLibrary"], ["Base", "BaseBase", "Archive"], ["Library", "BaseLibrary", "BaseBaseLibrary"],
+                    ["Basemap", "BaseCatalog", "Catalog"], ["Underscore", "BaseUnderscore", "Baseball"], ["BaseService", "Service", "Based"]]
 SCALARS = ["string", "int32", "bool", "int64", "bytes", "double"]
 
 # --------------------------------------------------------------------------------------------------
@@ -57,7 +61,7 @@ def all_methods(spec, package=None):
     return out
 
 
-def gen_spec(r: apigen.Rng, *, t3=False, ext=None, nested_parent_hazard=None):
+def gen_spec(r: apigen.Rng, *, t3=False, ext=None, nested_parent_hazard=None, marked_names=None):
     """`t3`: only importable dependencies (installed *_pb2), gRPC-callable method kinds.
     `nested_parent_hazard`: allow a request to reference a nested type whose enclosing message is not
     otherwise referenced (the shape behind the known finding); None = random (rare)."""
@@ -204,11 +208,17 @@ def gen_spec(r: apigen.Rng, *, t3=False, ext=None, nested_parent_hazard=None):
                       enums=["Status"])
         lib["messages"].append(op_msg)
     nsvc = r.randint(1, 3)
+    svc_names = SVC_NAMES
+    if marked_names is None:
+        marked_names = r.maybe(0.3)
+    if marked_names:
+        svc_names = list(r.pick(MARKED_SVC_POOLS)); r.shuffle(svc_names)
+        nsvc = max(nsvc, 2)          # any two names of a pool include one that starts with `Base`
     msgs, enums = type_pools()
     data_top = [x for x in msgs if toplevel(x) and x.split(".")[-1] in [d["name"] for d in data]]
     mcount = 0
     for si in range(nsvc):
-        svc = {"name": SVC_NAMES[si], "methods": []}
+        svc = {"name": svc_names[si], "methods": []}
         for _ in range(r.randint(1, 4)):
             if mcount >= 8:
                 break
@@ -219,6 +229,9 @@ def gen_spec(r: apigen.Rng, *, t3=False, ext=None, nested_parent_hazard=None):
             kind = r.pick(kinds)
             mname = {"get": "Get", "list": "List", "lro": "Export", "create": "Create", "stream": "Watch"}[kind] + short + (str(mcount) if any(
                 mm["name"].startswith({"get": "Get", "list": "List", "lro": "Export", "create": "Create", "stream": "Watch"}[kind] + short) for s2 in lib["services"] + [svc] for mm in s2["methods"]) else "")
+            if marked_names and kind != "list" and r.maybe(0.3):
+                # RPC names that spell out the mark the internal mode adds to methods (a literal leading `_` is C12's business)
+                mname = r.pick(["Underscore", "Private", "Base"]) + mname.rstrip("0123456789") + str(mcount)
             rq = _msg(mname + "Request")
             fill(rq, f"{PKG}.{rq['name']}", lib, r.randint(0, 3), nested_ok=nested_parent_hazard)
             meth = {"name": mname, "input": f".{PKG}.{rq['name']}", "output": "." + tgt}
@@ -317,11 +330,29 @@ def ext_subset(r, spec):
     return sorted(sub)
 
 
+def clash_subset(r, spec):
+    """services Foo and BaseFoo in one API: every RPC of BaseFoo listed, some RPC of Foo not (internal mode then names
+    both client classes BaseFooClient); None if the API has no such pair"""
+    svcs = {s["name"]: s for f, s in target_services(spec)}
+    pairs = [(n[4:], n) for n in svcs if n.startswith("Base") and n[4:] in svcs and svcs[n[4:]]["methods"] and svcs[n]["methods"]]
+    if not pairs:
+        return None
+    foo, basefoo = r.pick(pairs)
+    fm = [f"{PKG}.{foo}.{m['name']}" for m in svcs[foo]["methods"]]
+    sub = set(f"{PKG}.{basefoo}.{m['name']}" for m in svcs[basefoo]["methods"]) | set(r.sample(fm, r.randint(0, len(fm) - 1)))
+    return sorted(sub)
+
+
 def subsets(r, spec, n):
     """n further (listed, internal) choices for the same API (incl. single-method and all-but-one subsets)"""
     meths = all_methods(spec, PKG)
     out = []
     for i in range(n):
+        if i == n - 1 and n > 1 or (n == 1 and not ext_roles(spec)[0]):
+            sub = clash_subset(r, spec)
+            if sub:
+                out.append((sub, True))
+                continue
         if i == 0 and ext_roles(spec)[0]:
             sub = ext_subset(r, spec)
             if sub:
@@ -749,6 +780,18 @@ def features(spec, d, listed, req_types):
                     if m.get("ss"): fs.add("stream-kept")
                 elif m.get("lro"):
                     fs.add("lro-dropped")
+    tnames = [s["name"] for f, s in target_services(spec)]
+    for f, s in target_services(spec):
+        unl = [m for m in s["methods"] if f"{PKG}.{s['name']}.{m['name']}" not in listed]
+        if s["name"].startswith("Base"):
+            fs.add("name:service-starts-with-Base" + ("-some-rpc-unlisted" if unl else "-all-listed"))
+            if s["name"][4:] in tnames:
+                fs.add("name:services-Foo-and-BaseFoo")
+                other = next(x for _, x in target_services(spec) if x["name"] == s["name"][4:])
+                if not unl and any(f"{PKG}.{other['name']}.{m['name']}" not in listed for m in other["methods"]):
+                    fs.add("name:BaseFoo-all-listed-Foo-not")
+        if any(m["name"].startswith(("Underscore", "Private", "Base")) for m in unl):
+            fs.add("name:rpc-spells-a-mark-unlisted")
     starters, polling, ops_other = ext_roles(spec)
     kept_starters = [m for m in starters if m in listed]
     if kept_starters:
@@ -819,6 +862,18 @@ def oracle_schema(ctx, spec, d, api0, api_sel, listed, internal, payload):
         allowed = {t for t in d.with_enclosing(req_types) if d.in_target(t)} if hz else required
         if got_types - allowed:
             ctx.fail("type-extra", f"unreachable types kept: {sorted(got_types - allowed)[:5]}", payload)
+        # the kept RPCs and their clients are exposed under the names the full library gives them (no internal marks)
+        for sk, s in api_sel.services.items():
+            s0 = api0.services.get(sk)
+            if s0 is None:
+                continue
+            if (s.client_name, s.async_client_name) != (s0.client_name, s0.async_client_name):
+                ctx.fail("client-classes", f"{sk}: client classes {s.client_name}/{s.async_client_name} in omitting mode, "
+                         f"the full library has {s0.client_name}/{s0.async_client_name}", payload)
+            for mk, m in s.methods.items():
+                if mk in s0.methods and m.client_method_name != s0.methods[mk].client_method_name:
+                    ctx.fail("rpc-set", f"{sk}.{m.name}: client method {m.client_method_name} in omitting mode, "
+                             f"{s0.methods[mk].client_method_name} in the full library", payload)
         orphans = sorted(t for t in got_types if d.parent_of.get(t) and d.parent_of[t] not in got_types)
         if orphans:
             ctx.fail("nested-kept-parent-pruned",
@@ -1098,6 +1153,8 @@ def run_library(spec, files, api, doc, plan, call_names, deep=True):
         if has_sub(spec):
             sub_i = len(ops)
             ops.append({"op": "proto_classes", "module": pkg + ".sub.types"})
+        exp_i = len(ops)
+        ops.append({"op": "package_exports", "package": pkg})
         svc_index = {}
         for f, s in target_services(spec):
             svc_index[s["name"]] = len(ops)
@@ -1138,7 +1195,7 @@ def run_library(spec, files, api, doc, plan, call_names, deep=True):
         for f in res.file:
             if f.name.endswith("gapic_metadata.json"):
                 md = json.loads(f.content)
-        return {"import": out[0], "types": types, "surface": {k: out[i] for k, i in svc_index.items()},
+        return {"import": out[0], "types": types, "surface": {k: out[i] for k, i in svc_index.items()}, "exports": out[exp_i],
                 "sessions": {k: (out[i], calls) for k, (i, calls) in sess_index.items()},
                 "files": sorted(f.name for f in res.file), "metadata": md}
     finally:
@@ -1182,6 +1239,56 @@ def emitted_types(lib, d):
     return {c["full"] for c in cls if c["kind"] != "error"}, [c for c in cls if c["kind"] == "error" or not c.get("usable")]
 
 
+def expected_client_classes(spec, internal, listed, req_services):
+    """{service name: (sync class, async class)} the statement gives every service the library holds: the service's
+    own name + Client/AsyncClient, with the prefix `Base` iff internal mode and some RPC of the service is unlisted"""
+    out = {}
+    for f, s in target_services(spec):
+        sk = f"{PKG}.{s['name']}"
+        if not (internal or sk in req_services):
+            continue
+        unlisted = [m for m in s["methods"] if f"{sk}.{m['name']}" not in listed]
+        prefix = "Base" if (internal and unlisted) else ""
+        out[s["name"]] = (prefix + s["name"] + "Client", prefix + s["name"] + "AsyncClient")
+    return out
+
+
+def exports_oracle(ctx, spec, lib, internal, listed, req_services, payload):
+    """what `from acme.lib_v1 import X` hands out: for every service of the library the two class names of the
+    statement, bound to the classes that service's own module defines; no other *Client class."""
+    exp = lib.get("exports") or {}
+    if "exports" not in exp:
+        ctx.fail("import-error", f"the package does not import: {str(exp)[:200]}", payload)
+        return
+    want = expected_client_classes(spec, internal, listed, req_services)
+    owners = {}
+    for sname, names in want.items():
+        for n in names:
+            owners.setdefault(n, []).append(sname)
+    clash = {n for n, ss in owners.items() if len(ss) > 1}
+    if clash:
+        # Foo (internal) next to BaseFoo (every RPC listed): the statement itself gives both services the class name
+        # BaseFooClient; each lives in its own service module (checked there), the package namespace can hold one
+        ctx.assume("package-level exports are compared only for client class names the statement gives to ONE service "
+                   "(services Foo with an unlisted RPC and BaseFoo with none both get BaseFooClient in internal mode)")
+        ctx.count("hazard", "t3:client-class-name-clash")
+    for n, ss in owners.items():
+        if n in clash:
+            continue
+        mod = f"acme.lib_v1.services.{snake(ss[0])}."
+        got = exp["exports"].get(n)
+        if got is None:
+            ctx.fail("internal-names" if internal else "client-classes",
+                     f"the package does not export {n} (service {ss[0]}); it exports {sorted(k for k in exp['exports'] if k.endswith('Client'))}", payload)
+        elif not got[0].startswith(mod) or got[1] != n:
+            ctx.fail("internal-names" if internal else "client-classes",
+                     f"the package exports {n} bound to {got[0]}:{got[1]}, not to the class of service {ss[0]}", payload)
+    extra = sorted(k for k in exp["exports"] if k.endswith("Client") and k not in owners)
+    if extra:
+        ctx.fail("internal-names" if internal else "client-classes",
+                 f"the package exports client classes no service of the library is entitled to: {extra}; expected {sorted(owners)}", payload)
+
+
 def metadata_oracle(ctx, spec, lib, full, want_rpcs, internal, listed, payload):
     """gapic_metadata.json describes the surface the selective library really has"""
     md = lib.get("metadata")
@@ -1202,7 +1309,7 @@ def metadata_oracle(ctx, spec, lib, full, want_rpcs, internal, listed, payload):
                 ctx.fail("metadata-surface", f"gapic_metadata {sname}/{tname} lists RPCs {sorted(cd.get('rpcs', {}))}, expected {sorted(want_rpcs.get(sname, set()))}", payload)
             for rpc_name, rd in cd.get("rpcs", {}).items():
                 fq = f"{PKG}.{sname}.{rpc_name}"
-                fcls = set(full["surface"].get(sname, {}).get("classes", {}).get(cls[4:] if cls.startswith("Base") else cls, []))
+                fcls = set(full["surface"].get(sname, {}).get("classes", {}).get(sname + ("AsyncClient" if cls.endswith("AsyncClient") else "Client"), []))
                 for mn in rd.get("methods", []):
                     if mn.lstrip("_") not in fcls and mn not in fcls:
                         continue        # the FULL library's metadata names it without having it either (C15's business)
@@ -1329,6 +1436,7 @@ def t3_api(ctx, r, spec, nvar, label, variants=None):
                     mn = {n for n in mnames if n.lstrip("_") in fmembers or n in fmembers}
                     if set(members) & every != mn:
                         ctx.disagree("T3:c16.surface", f"{cn}: model {sorted(mn)} vs emitted {sorted(set(members) & every)}", payload)
+        exports_oracle(ctx, spec, lib, internal, listed, req_services, payload)
         metadata_oracle(ctx, spec, lib, full, want_rpcs, internal, listed, payload)
         # ---- types
         got_types, bad = emitted_types(lib, d)
@@ -1471,7 +1579,8 @@ def all_subsets(meths):
 def run(ctx):
     ctx.rule = ("APIs of the 'selective' profile (2-4 proto files of the target package + dependency packages; shared, nested, "
                 "recursive and map types; message- and file-level resources with type/child_type references; unary, paged, "
-                "LRO, streaming and extended-operation RPCs, the operation service declared before, between or after the "
+                "LRO, streaming and extended-operation RPCs; service names that start with `Base` (Base, BaseBase, Baseline, Foo next to BaseFoo) "
+                "and RPC names that spell out a mark (Underscore.., Private.., Base..); the operation service declared before, between or after the "
                 "services that start operations, its polling method at any position, 1-2 starting RPCs per operation service; "
                 "services that become empty; files that drop out) x subsets of "
                 "RPCs (random, singletons, all-but-one, all, starting RPC + non-polling RPCs of the operation service; "
@@ -1518,7 +1627,7 @@ def run(ctx):
     # ---- T3
     r = ctx.rng("t3")
     for a in range(ctx.n(5, 50)):
-        spec = gen_spec(r, t3=True)
+        spec = gen_spec(r, t3=True, marked_names=True if a % 4 == 1 else None)
         t3_api(ctx, r, spec, ctx.n(3, 4), f"t3-{a}")
     r = ctx.rng("t3ext")
     for a in range(ctx.n(1, 7)):
